@@ -466,6 +466,7 @@ fn main() {
                     "apply" => vh::bp::op_apply(&job),
                     "apply_raw" => vh::bp::op_apply_raw(&job),
                     "json_load" => vh::bp::op_json_load(&job),
+                    "eval_hex" => vh::bp::op_eval_hex(&job),
                     o => Err(format!("unknown op {o}")),
                 });
                 let mut res = match r {
